@@ -6,6 +6,8 @@
 
 mod compose;
 mod ctx;
+/// Whether wac-resolver is built with its `wat` feature in this crate (C18 lanes).
+pub const WAT_ENABLED: bool = true;
 mod decode;
 mod props;
 mod util;
@@ -39,6 +41,7 @@ fn main() {
         "C03" => props::c03::run(&mut ctx),
         "C06" => props::c06::run(&mut ctx),
         "C12" => props::c12::run(&mut ctx),
+        "C18" => props::c18::run(&mut ctx),
         "C13" => props::c13::run(&mut ctx),
         "C15" => props::c15::run(&mut ctx),
         "debug-c01" => {
